@@ -278,6 +278,8 @@ class Tr:
             return "guard"
         if t.endswith("::element &") or t.endswith("::element"):
             return "eref"
+        if t.endswith("::value_type &") and "::element>" in t and "__alloc_traits<" in t:
+            return "eref"          # auto& e = m_elements[i]: the vector's reference type, spelled through its allocator traits
         if t in ("size_t", "unsigned long", "std::size_t") or "size_type" in t:
             return "nat"
         if t == "bool":
@@ -334,6 +336,14 @@ class Tr:
             if c["n"] == "&&":
                 return b1 + ["do %s <- (if %s then (" % (x, t1), inner, ") else Ok false);"], x, "bool"
             return b1 + ["do %s <- (if %s then Ok true else (" % (x, t1), inner, "));"], x, "bool"
+        if k == "?ConditionalOperator" and len(c["a"]) == 3:
+            b0, t0, k0 = self.E(c["a"][0], st, env)
+            st1, st2 = [st[0]], [st[0]]
+            b1, t1, k1 = self.E(c["a"][1], st1, env)
+            b2, t2, k2 = self.E(c["a"][2], st2, env)
+            if k0 != "bool" or k1 != k2 or b1 or b2 or st1[0] != st[0] or st2[0] != st[0]:
+                raise Unsupported("conditional expression %s" % show(c)[:160])
+            return b0, "(if %s then %s else %s)" % (t0, t1, t2), k1
         if k == "un" and c["n"] == "pre!":
             b, t, kd = self.E(c["a"][0], st, env)
             if kd != "bool":
